@@ -203,6 +203,8 @@ func c03Dial(c *Ctx, r *Report, rule string, headers bool) {
 				switch {
 				case callee == "modules/l4proxyprotocol.GetConn":
 					return symRef("GetConn("+args[0].Desc+")", false), true
+				case callee == "modules/l4proxy.(*Handler).countFailure":
+					return symOpaque("counted"), true // its own pairing is decided by C11.R1
 				case strings.HasPrefix(callee, "go.uber.org/zap"), strings.HasPrefix(callee, "(*go.uber.org/zap"), strings.HasSuffix(callee, ".JoinHostPort"), strings.HasSuffix(callee, ".ReplaceAll"), strings.HasPrefix(callee, "invoke net.Conn.RemoteAddr"), strings.HasPrefix(callee, "invoke net.Addr.String"):
 					return symOpaque(shortCallee(callee)), true
 				}
